@@ -185,6 +185,9 @@ def walk_leaves(prog, st, used_rand, prefix, level, out, objs):
         elif k == "list":
             lr = used_rand and bool(fd["r"])
             if fd["ek"] == "obj":
+                if fd.get("rsz") and lr:
+                    # random-size list of objects: the user populated it; its size ranges over 0..number of objects
+                    out.append((tuple(p + ["#sz"]), ("size", len(st["f"][n])), True))
                 for i, sub in enumerate(st["f"][n]):
                     walk_leaves(prog, sub, lr, p + [i], level + 2, out, objs)
             elif fd.get("rsz") and lr:
@@ -500,6 +503,8 @@ def _read_list(ctx, apath):
     """current elements of a list (honours a random size in env)"""
     base = get_at(ctx.root, apath)
     n = ctx.env.get(apath + ("#sz",), len(base))
+    if base and isinstance(base[0], dict):
+        return list(base[:n])        # list of objects: only the length matters to the callers
     out = []
     for i in range(n):
         p = apath + (i,)
@@ -772,6 +777,7 @@ class Call(object):
                     # a field passed explicitly is random for the call whatever its declaration
                     self.leaves.append((fp, leaf_type(prog, fd), True))
         self.rand_leaves = [(p, t) for p, t, r in self.leaves if r]
+        self._rsz_prefixes = [p[:-1] for p, t in self.rand_leaves if t[0] == "size"]
         # statements: (self_path, stmt, origin)
         self.stmts = []
         for path, st, used in self.objs:
@@ -813,8 +819,23 @@ class Call(object):
     def ctx(self, env, self_path):
         return Ctx(self.prog, self.root, self_path, env)
 
+    def _exists(self, sp, env):
+        """objects that are elements of a random-size list only exist (and only then do their own blocks apply)
+        when their index is below the list's size in this assignment"""
+        if not self._rsz_prefixes:
+            return True
+        for base in self._rsz_prefixes:
+            nb = len(base)
+            if len(sp) > nb and tuple(sp[:nb]) == base and isinstance(sp[nb], int):
+                n = env.get(base + ("#sz",))
+                if n is not None and sp[nb] >= n:
+                    return False
+        return True
+
     def holds(self, env):
         for sp, s, _ in self.stmts:
+            if not self._exists(sp, env):
+                continue
             if not stmt_holds(s, self.ctx(env, sp)):
                 return False
         return True
@@ -822,6 +843,8 @@ class Call(object):
     def violated(self, env):
         out = []
         for sp, s, org in self.stmts:
+            if not self._exists(sp, env):
+                continue
             if not stmt_holds(s, self.ctx(env, sp)):
                 out.append((org, s))
         return out
@@ -866,7 +889,9 @@ class Call(object):
         for i, (p, t) in enumerate(self.rand_leaves):
             if t[0] == "size":
                 base = p[:-1]
-                els = [(q[-1], j) for j, q in enumerate(paths) if q[:-1] == base and isinstance(q[-1], int)]
+                nb = len(base)
+                els = [(q[nb], j) for j, q in enumerate(paths)
+                       if len(q) > nb and q[:nb] == base and isinstance(q[nb], int)]
                 out.append((i, els))
         return out
 
